@@ -26,7 +26,8 @@ REQUIRED = ["next_is_lcg", "nrand48_spec", "sub_one_exact_dbl", "erand48_spec", 
             "step_streams_independent", "user_stream_independent_of_static", "static_stream_independent_of_user",
             "rand48_seq_function_of_seed", "r48Init_limb_duplicated",
             "nextf_range_convex", "length2_nonneg", "solidSphereRand_exit", "hollowSphereRand_exit", "gaussRandLoop_exit",
-            "gaussSphereRand_length2", "gaussRand_real", "gaussRand_real_bound"]
+            "gaussSphereRand_length2", "gaussRand_real", "gaussRand_real_bound", "gaussRand_bound_of_float",
+            "gaussRand_bound_rand32", "gaussRand_bound_rand48", "object_stream_independent_of_other_object"]
 PROPS_S = "ImathVerif.Props.C18Samplers"
 REQUIRED_S = ["loopGen_exit"] + [t % n for n in (2, 3, 4) for t in (
     "solidSphere%d_iter_eq", "solidSphereRand_is_gen%d", "solidSphere%d_loop_exit", "hollowSphere%d_iter_eq",
@@ -308,13 +309,22 @@ def run_residue(chk, binary, draws, nseeds):
         elif t[0] == "sampler":
             bad = sum(int(kv[k]) for k in ("solid_nonfinite", "solid_outside", "hollow_nonfinite", "hollow_off",
                                            "gauss_nonfinite", "gsphere_nonfinite"))
-            if float(kv["gauss_max_abs"]) > 15.0:      # Props/C18.lean gaussRand_real_bound: |deviate| <= 15 for every float length2 > 0
+            # Props/C18.lean gaussRand_bound_rand32 / _rand48: |deviate| <= 8 / 12 for what the generator can reach; the two hypotheses of
+            # those theorems (length2 >= 2^-46 / 2^-102, x^2 <= (1+2^-22) length2) are re-measured on every accepted candidate
+            # (gauss_hyp_bad), and the returned value is BIT-EQUAL to the harness's evaluation from a copied generator
+            gbound = 8.0 if t[1].endswith("Rand32") else 12.0
+            if float(kv["gauss_max_abs"]) > gbound:
                 bad += 1
+            bad += sum(int(kv[k]) for k in ("gauss_value_mismatch", "gauss_state_mismatch", "gauss_hyp_bad"))
             res["samplers " + t[1]] = {"draws_each": int(kv["n"]), "violations": bad,
                                        "solid_max_length2": float(kv["solid_max_length2"]),
                                        "hollow_max_|length-1|_in_eps": float(kv["hollow_max_dev_eps"]),
-                                       "gauss_max_abs": float(kv["gauss_max_abs"]), "gaussSphere_max_length": float(kv["gsphere_max_len"])}
-            chk.oblige("residue:samplers:%s finite, in ball, on sphere to 4 eps of the element type, |gaussRand| <= 15" % t[1], "residue-measurement", bad == 0)
+                                       "gauss_max_abs": float(kv["gauss_max_abs"]), "gaussSphere_max_length": float(kv["gsphere_max_len"]),
+                                       "gauss_retries": int(kv["gauss_retries"]), "gauss_min_length2_log2": int(kv["gauss_min_length2_log2"])}
+            chk.oblige("residue:samplers:%s finite, in ball, on sphere to 4 eps of the element type; gaussRand bit-equal to the harness's "
+                       "evaluation from a copied generator, hypotheses of gaussRand_bound_%s hold, |gaussRand| <= %d" % (
+                           t[1], "rand32" if t[1].endswith("Rand32") else "rand48", 8 if t[1].endswith("Rand32") else 12),
+                       "residue-measurement", bad == 0)
             chk.count(4 * int(kv["n"]), 4 * int(kv["n"]))
             if bad:
                 allok = False
@@ -390,6 +400,49 @@ def run_range_exact(chk, binary, draws, sweep_pairs):
                  "a*(1-f)+a*f rounds to a +- 1 ulp; 0 observed outside the interval for adjacent endpoints)"] = res
 
 
+def run_range_contracted(chk, draws, sweep_pairs):
+    """N8: the library's default build on FMA targets contracts a*(1-f)+b*f into fma(a, 1-f, b*f); the harness is rebuilt with
+    -O2 -ffp-contract=fast -mfma (the members are inline, so they are compiled with these flags) and the INTERVAL residue is measured
+    again; bit-equality with the uncontracted formula is not expected there and not required."""
+    try:
+        has_fma = " fma " in open("/proc/cpuinfo").read()
+    except OSError:
+        has_fma = False
+    if not has_fma:
+        chk.extra.setdefault("C18_notes", []).append("CPU without FMA: contracted build of nextf(a,b) not measured")
+        return
+    ok, binary, o = lib.cxx_build("rand48_corr_fma", ["corr/rand48_corr.cpp", os.path.join(lib.REPO, "src/Imath/ImathRandom.cpp")],
+                                  extra=["-fno-lifetime-dse", "-O2", "-ffp-contract=fast", "-mfma"])
+    chk.oblige("build:rand48_corr_fma", "build", ok, None if ok else o[-800:])
+    if not ok:
+        chk.fail("build:rand48_corr_fma", "build:rand48_corr_fma", "harness does not compile with -O2 -ffp-contract=fast -mfma", {"compiler_output": o[-2000:]}, False)
+        return
+    rc, out = lib.sh([binary, "rangeExact", str(chk.seed), str(draws), str(sweep_pairs)], timeout=1800)
+    rows = [kvs(l) for l in out.split("\n") if l.startswith("exact ")]
+    names = [l.split()[1] for l in out.split("\n") if l.startswith("exact ")]
+    res = {}
+    for cls in ("Rand32", "Rand48"):
+        rs = [r for r, nm in zip(rows, names) if nm == cls]
+        nf = sum(int(r["nonfinite"]) for r in rs)
+        mx = max([float(r["max_exc_endpoint_ulp"]) for r in rs] or [99.0])
+        n = sum(int(r["n"]) for r in rs)
+        okr = rc == 0 and bool(rs) and nf == 0 and mx <= 1.0
+        chk.oblige("residue:nextf(a,b):%s with FMA contraction (-O2 -ffp-contract=fast -mfma): finite and within one ulp of [min,max] "
+                   "(measured excursion %.4f ulp)" % (cls, mx), "residue-measurement", okr)
+        chk.count(n, n)
+        res[cls] = {"evaluations": n, "nonfinite": nf, "max_excursion_ulp_of_larger_endpoint": mx,
+                    "results_differing_from_the_uncontracted_formula": sum(int(r["value_mismatch"]) for r in rs),
+                    "outside_closed_interval": sum(int(r["outside"]) for r in rs)}
+        if not okr:
+            bad = next((r for r in rs if int(r["nonfinite"]) or float(r["max_exc_endpoint_ulp"]) > 1.0), None)
+            d = kvs(bad["first_bad"] if bad and int(bad["nonfinite"]) else (bad or {}).get("worst", "")) if bad else {}
+            chk.fail("residue:nextf(a,b):%s:fma" % cls, "C18:nextf-range-fma:%s:%s:%s" % (cls, d.get("a"), d.get("b")),
+                     "%s::nextf(a,b) compiled with FMA contraction left the interval between a and b by more than one rounding" % cls,
+                     {"class": cls, "measured": bad, "replay_cmd": ".build/bin/rand48_corr_fma rangeExact %d %d %d" % (chk.seed, draws, sweep_pairs)},
+                     bad is not None)
+    chk.residues["nextf(a,b) compiled with FMA contraction (the members are inline; a*(1-f)+b*f becomes fma): interval residue only"] = res
+
+
 def run_determinism(chk, binary, nseeds):
     rc, out = lib.sh([binary, "determinism", str(chk.seed), str(nseeds)], timeout=600)
     seen = 0
@@ -440,10 +493,13 @@ def run_script(chk, binary, stats):
             chk.oblige("script:gaussSphereRand<%s> = hollowSphereRand(rand) * gaussRand(rand) bitwise (either draw order)" % ty, "correspondence", ok)
         else:
             reach = all(int(kv[k]) > 0 for k in ("accepted", "rejected", "zero_candidates", "unit_length_candidates"))
+            if fn != "gaussRand":                      # two rejections in a row before the accepted fallback (3 iterations)
+                reach = reach and int(kv["three_iterations"]) >= 10
             ok = rc == 0 and bad == 0 and reach
             chk.oblige("script:%s<%s> loop decision, draws consumed and returned bits on every lattice candidate (accepted %s, retried %s, "
-                       "zero vector %s, length exactly 1: %s)" % (fn, ty, kv["accepted"], kv["rejected"], kv["zero_candidates"],
-                                                                  kv["unit_length_candidates"]), "correspondence", ok)
+                       "zero vector %s, length exactly 1: %s, two rejections in a row: %s)" % (
+                           fn, ty, kv["accepted"], kv["rejected"], kv["zero_candidates"], kv["unit_length_candidates"],
+                           kv.get("three_iterations", "-")), "correspondence", ok)
             if fn == "gaussRand":
                 stats["gaussRand_lattice_max_abs"] = max(stats.get("gaussRand_lattice_max_abs", 0.0), float(kv["max_abs"]))
         chk.count(n, n)
@@ -494,6 +550,66 @@ def run_gauss_lattice(chk, binary):
                  "gaussRand's accept/retry decision differs from the hand model Field.gaussRandLoop (accept iff 0 < x^2+y^2 < 1)",
                  {"implementation_line (G kx ky iterations, candidate (kx/8, ky/8))": bad[0] if bad else None, "model_line": bad[1] if bad else None,
                   "lean_output_tail": None if bad else o2[-800:], "replay_cmd": ".build/bin/rand48_corr gaussLattice"}, bad is not None)
+
+
+def run_gauss_sweep(chk, binary, stats):
+    """gaussRand's returned VALUE (float-typed, not regenerated): scripted generator over x = +-2^-k m/8, y = +-2^-j n/8, k, j <= 75
+    (length2 from the subnormal range to next to 1): bit-equal to the harness's evaluation of the documented expression and within
+    2 float ulps of the long-double formula; plus the granularity of the draws of the real generators"""
+    rc, out = lib.sh([binary, "gaussSweep", "75"], timeout=900)
+    rows = [l for l in out.split("\n") if l.startswith("gaussSweep ")]
+    for l in rows:
+        ty, kv = l.split()[1], kvs(l)
+        n, bad = int(kv["n"]), int(kv["bad"])
+        reach = all(int(kv[k]) >= 1000 for k in ("accepted", "rejected", "length2_below_1_64", "length2_subnormal", "length2_at_least_half"))
+        ok = rc == 0 and bad == 0 and reach and int(kv["rounding_hyp_bad"]) == 0
+        chk.oblige("script:gaussRand value<%s> bit-equal to float(x*sqrt(-2*log(double(l))/l)) and within 2 float ulps of the long-double "
+                   "formula on %s candidates (length2 < 1/64: %s, subnormal: %s, >= 1/2: %s, rejected: %s)" % (
+                       ty, kv["n"], kv["length2_below_1_64"], kv["length2_subnormal"], kv["length2_at_least_half"], kv["rejected"]),
+                   "correspondence", ok)
+        chk.count(n, n)
+        stats["gaussRand_sweep_" + ty] = {"max_abs_over_all_candidates (exceeds 15 in the subnormal range: gaussRand_real_bound is exact-arithmetic only)":
+                                          float(kv["max_abs"]), "at": kv["max_abs_at"], "max_abs_with_normal_length2": float(kv["max_abs_normal_length2"]),
+                                          "rounding_hypothesis_checked": int(kv["rounding_hyp_checked"])}
+        if bad or int(kv["rounding_hyp_bad"]):
+            chk.fail("script:gaussRand value<%s>" % ty, "rand48_corr:gaussRand:value",
+                     "gaussRand run with a scripted generator does not return float(x * sqrt(-2 * log(double(length2)) / length2)) of the "
+                     "accepted candidate (or consumes a different number of draws)",
+                     {"draw_type": ty, "first_failing_candidate": kv["first"], "failures": bad, "value_mismatches": int(kv["value_mismatch"]),
+                      "beyond_2ulp_of_long_double": int(kv["beyond_2ulp"]), "nonfinite": int(kv["nonfinite"]),
+                      "replay_cmd": ".build/bin/rand48_corr gaussSweep 75"}, True)
+    grows = [l for l in out.split("\n") if l.startswith("granularity ")]
+    for l in grows:
+        cls, kv = l.split()[1], kvs(l)
+        need = -22 if cls == "Rand32" else -51
+        ok = rc == 0 and int(kv["bad"]) == 0 and int(kv["min_nonzero_log2"]) >= need
+        chk.oblige("granularity:%s::nextf(-1,1) = 2f-1 exactly, zero or at least 2^%d in magnitude (%s; hypothesis of gaussRand_bound_%s)" % (
+            cls, need, "ALL 2^23 values of f" if cls == "Rand32" else "boundary f + %s sampled states" % kv["n"], cls.lower()),
+            "correspondence", ok, kv)
+        chk.count(int(kv["n"]), int(kv["n"]))
+        if not ok:
+            chk.fail("granularity:" + cls, "rand48_corr:%s::nextf(-1,1):granularity" % cls,
+                     "%s::nextf(-1,1) is not 2f-1 on the grid the gaussRand bound assumes" % cls, {"measured": kv,
+                     "replay_cmd": ".build/bin/rand48_corr gaussSweep 75"}, True)
+    if rc != 0 or len(rows) != 2 or len(grows) != 2:
+        chk.oblige("gaussSweep:harness-ran", "correspondence", False, out[-400:])
+        chk.fail("gaussSweep", "rand48_corr:gaussSweep:harness", "gaussSweep harness failed to run", {"output": out[-1500:]}, False)
+
+
+def run_two_objects(chk, binary, rounds):
+    """several LIVE generator objects with interleaved calls (a function-local static or a shared buffer in a member would show)"""
+    rc, out = lib.sh([binary, "twoObjects", str(chk.seed), str(rounds)], timeout=600)
+    row = next((l for l in out.split("\n") if l.startswith("twoObjects ")), None)
+    kv = kvs(row) if row else {}
+    ok = rc == 0 and row is not None and int(kv["glibc_bad"]) == 0 and int(kv["lone_replay_bad"]) == 0 and int(kv["calls"]) > 0
+    chk.oblige("twoObjects: two live Rand48, two live Rand32, two arrays and the static state, 120 interleaved calls x %d rounds: every call = "
+               "glibc on a private copy, every object's stream = the same calls on a lone object" % rounds, "correspondence", ok)
+    if row:
+        chk.count(int(kv["calls"]), int(kv["calls"]))
+    if not ok:
+        chk.fail("twoObjects", "rand48_corr:twoObjects:%s" % ("lone-replay" if row and int(kv["lone_replay_bad"]) else "glibc" if row else "harness"),
+                 "calls on one generator object are affected by calls on another live object (or on the static state): hidden shared state",
+                 {"first": kv.get("first"), "measured": kv, "replay_cmd": ".build/bin/rand48_corr twoObjects %d %d" % (chk.seed, rounds)}, row is not None)
 
 
 def make_sampler_search(chk, binary):
@@ -549,7 +665,8 @@ def make_search(chk):
                 if len(o) < 2 or o[1] != want:
                     return {"key": "C18:model-vs-posix:srand48:%x" % sd, "seed_hex": "%x" % sd, "model": o[:3], "posix_spec": want}
         if name in ("rand48_seq_function_of_seed", "rand32_seq_function_of_seed", "user_stream_independent_of_static",
-                    "static_stream_independent_of_user", "step_streams_independent", "r48Init_limb_duplicated"):
+                    "static_stream_independent_of_user", "step_streams_independent", "r48Init_limb_duplicated",
+                    "object_stream_independent_of_other_object"):
             # executable form on the REAL objects: same outputs / object bytes for different prior storage contents
             hb = os.path.join(lib.BUILD, "bin", "rand48_corr")
             if os.path.exists(hb):
@@ -582,7 +699,8 @@ def run(chk):
                    "splitmix64 input generator duplicated in driver and harness (a discrepancy would show as a mismatch)",
                    "glibc nrand48/erand48/lrand48/drand48/srand48 as the executable POSIX reference",
                    "g++ -O1 -ffp-contract=off -fno-lifetime-dse and the CPU executing the harness (IEEE double/float arithmetic; the harness's "
-                   "own evaluation of a*(1-f)+b*f through volatile temporaries is the reference for nextf(a,b))"]
+                   "own evaluation of a*(1-f)+b*f through volatile temporaries is the reference for nextf(a,b) and of gaussRand's expression); "
+                   "a second build with -O2 -ffp-contract=fast -mfma measures the nextf(a,b) interval residue under FMA contraction"]
     chk.assumptions = ["LP64: unsigned long / long are 64 bits, unsigned short 16 bits (static_assert in the harness); run32_low32_only proves "
                        "that Rand32's outputs depend on the low 32 state bits only, nothing is compiled with 32-bit long",
                        "Spec/Rand48Spec.lean states the POSIX recurrence, the 31-bit / [0,1) outputs and the srand48 seeding rule correctly",
@@ -590,7 +708,11 @@ def run(chk):
                        "floating-point rounding in nextf(a,b) and the samplers is measured, not proved (see coverage.residues); the sampler "
                        "theorems are about exact arithmetic over an ordered field; loop termination is not claimed",
                        "gaussRand is float-typed for every vector type and is not regenerated: its loop model Field.gaussRandLoop is tied by "
-                       "the scripted-generator lattice (361 candidates) only; in gaussSphereRand it is a parameter `g` of the generated body",
+                       "the scripted-generator lattice (361 candidates), its returned value by bit-equality with the harness's own evaluation "
+                       "(scripted sweep + real generators); no theorem is about that C++ expression; in gaussSphereRand it is a parameter `g`",
+                       "gaussRand_bound_rand32/_rand48 assume the granularity of the two real generators (measured: nextf(-1,1) = 2f-1 exactly) "
+                       "and IEEE relative error 2^-24 per float operation in the normal range (both hypotheses re-measured per accepted "
+                       "candidate); gaussRand_real_bound is exact arithmetic only and is NOT used as a bound on the code",
                        "lean_tv (emitted text at Rat) evaluates Vec::length() with the fixed rational stubs of harness/sym/c10frac.h (not a real "
                        "square root): it validates the emitter (call/argument order, branch structure), not the arithmetic meaning"]
     chk.rule = ("(1) every combination of limbs in {0,1,0x7fff,0x8000,0xfffe,0xffff,0x330e,0xff,0xff00}^3, the preimages of 25 boundary "
@@ -602,8 +724,11 @@ def run(chk):
                 "sequences, and Rand32 member sequences, seeds boundary + random; every call is non-trivial (state changes); "
                 "(4) nextf(a,b): 24x24 grid + adjacent floats (a, a+-1ulp, a+2ulp) over 18 magnitudes x both signs, a = b, (-x, x), "
                 "(lowest,max) ... x draws, Rand32 additionally ALL 2^23 f on special pairs, Rand48 at 15 boundary f; (5) determinism: "
-                "6 prior storage contents x 3 ways of (re)initialising x boundary + random seeds; (6) scripted generator: every candidate "
-                "of the lattices (k/8)^2, (k/4)^3, (k/4)^4 incl. the zero vector, length exactly 1 and length2 just above 1")
+                "6 prior storage contents x 3 ways of (re)initialising x boundary + random seeds; two live Rand48 + two live Rand32 + two arrays + "
+                "the static state with 120 randomly interleaved calls per round; (6) scripted generator: every candidate "
+                "of the lattices (k/8)^2, (k/4)^3, (k/4)^4 incl. the zero vector, length exactly 1 and length2 just above 1, every 7th point "
+                "after an extra rejected candidate; (7) gaussRand value: x = +-2^-k m/8, y = +-2^-j n/8, k, j <= 75, m, n in 1..8, float and "
+                "double draws, plus candidates next to length2 = 1")
     stats = {}
     rc, out = lib.lake_build(["drv_rand48"])
     okd = rc == 0
@@ -632,22 +757,25 @@ def run(chk):
                      "loop (a test was added or dropped)", {"paths": paths, "expected": {k % 3: v for k, v in want.items()}}, False)
         troute.tv(chk, bins["sym_c18"], "c18", 2000 if chk.thorough else 400, idx_deps=[leaf_idx])
         # emitted Lean text at Rat vs trees at exact fractions; Vec::length at exact fractions through c10frac.h, so all 9 entries are
-        # covered.  The shared case generator draws integers in [-4,4] (mostly rejected candidates): the number of cases per entry is
-        # raised (120, 240, ...) until every entry also has accepted candidates (counted from the same rattv run; an obligation).
-        acc, ncase = {}, 120
-        for ncase in (120, 240, 480, 960):
-            _, rat = lib.sh([bins["sym_c18"], "rattv", str(chk.seed), str(ncase), "--idx", leaf_idx], timeout=600)
+        # covered.  Candidates k/4, k in [-5,5] (`rattv --den 4`: the default integers in [-4,4] are almost always rejected); the number
+        # of cases per entry is raised (240, 480, ...) until every entry has at least MIN_ACCEPTED accepted candidates as well as
+        # rejected ones (counted from the same rattv run; an obligation).
+        MIN_ACCEPTED = 10
+        acc, rej, ncase = {}, {}, 240
+        for ncase in (240, 480, 960, 1920):
+            _, rat = lib.sh([bins["sym_c18"], "rattv", str(chk.seed), str(ncase), "--den", "4", "--idx", leaf_idx], timeout=600)
             acc = {d["name"]: 0 for d in index}
+            rej = {d["name"]: 0 for d in index}
             for l in rat.split("\n"):
                 t = l.split()
-                if len(t) > 2 and t[0] == "RATCASE" and " OUT exc=- " in l and t[1] in acc:
-                    acc[t[1]] += 1
-            if acc and all(v > 0 for v in acc.values()):
+                if len(t) > 2 and t[0] == "RATCASE" and t[1] in acc:
+                    (acc if " OUT exc=- " in l else rej)[t[1]] += 1
+            if acc and min(acc.values()) >= MIN_ACCEPTED and min(rej.values()) >= MIN_ACCEPTED:
                 break
-        troute.lean_tv(chk, bins["sym_c18"], "c18", index, n=ncase, idx_deps=[leaf_idx])
-        okacc = bool(acc) and all(v > 0 for v in acc.values())
-        chk.oblige("lean-tv:c18: every entry is exercised on accepted candidates as well as rejected ones", "translation-validation",
-                   okacc, {"cases_per_entry": ncase, "accepted": acc})
+        troute.lean_tv(chk, bins["sym_c18"], "c18", index, n=ncase, idx_deps=[leaf_idx], extra_args=["--den", "4"])
+        okacc = bool(acc) and min(acc.values()) >= MIN_ACCEPTED and min(rej.values()) >= MIN_ACCEPTED
+        chk.oblige("lean-tv:c18: every entry is exercised on at least %d accepted and %d rejected candidates" % (MIN_ACCEPTED, MIN_ACCEPTED),
+                   "translation-validation", okacc, {"cases_per_entry": ncase, "accepted": acc, "rejected": rej})
         chk.extra.setdefault("lean_tv", {}).setdefault("c18", {})["accepted_candidate_cases"] = dict(acc, cases_per_entry=ncase)
         for d in index:
             chk.sample({"entry": d["name"], "paths": d.get("paths"), "reads": d.get("extra")})
@@ -674,8 +802,11 @@ def run(chk):
     stats["sampled_class_seeds"] = nbc * 65536
     run_determinism(chk, binary, 2000 if chk.thorough else 200)
     run_range_exact(chk, binary, 2000 if chk.thorough else 150, 11 if chk.thorough else 4)
+    run_range_contracted(chk, 2000 if chk.thorough else 150, 11 if chk.thorough else 2)
+    run_two_objects(chk, binary, 2000 if chk.thorough else 200)
     run_script(chk, binary, stats)
     run_gauss_lattice(chk, binary)
+    run_gauss_sweep(chk, binary, stats)
     run_residue(chk, binary, 20000 if chk.thorough else 1500, 2000 if chk.thorough else 300)
     stats["observation: Rand48::init stores state[2] = state[0] (theorem r48Init_limb_duplicated)"] = (
         "ImathRandom.h Rand48::init: `_state[2] = (unsigned short int) (seed & 0xFFFF)` is the same expression as `_state[0]`; only 2^32 of "
